@@ -43,7 +43,7 @@ class Gen(object):
     def __init__(self, seed, napps=2, nsides=3, steps=60, p_illegal=0.08, restarts=True,
                  use_time=True, explicit_sweeps=False, cross_app_mailboxes=False, max_conns=6,
                  names=None, p_third=0.15, body_prefix="b", long_advances=True, list_cmd=True, hostile=False, empty_side=False,
-                 switch_blur=None, bad_client_version=True):
+                 switch_blur=None, bad_client_version=True, closings=True):
         self.r = random.Random(seed)
         self.seed = seed
         self.apps = APPS[:napps]
@@ -80,6 +80,7 @@ class Gen(object):
         self.list_cmd = list_cmd
         self.switch_blur = switch_blur
         self.bad_client_version = bad_client_version
+        self.closings = closings
         self.conns = {}
         self.nconn = 0
         self.nbody = 0
@@ -119,9 +120,23 @@ class Gen(object):
 
     def gen(self):
         r = self.r
+        closing = []            # [connection, events until its drop]
         while len(self.hist) < self.steps:
+            for ent in list(closing):
+                ent[1] -= 1
+                if ent[1] <= 0:
+                    closing.remove(ent)
+                    self.emit("drop", ent[0].name)
             live = self.live()
             x = r.random()
+            if live and self.closings and r.random() < 0.03:
+                # a client starts the websocket closing handshake; the server learns of the lost connection
+                # only a few events later (commands of others are processed in between)
+                c = r.choice(live)
+                c.alive = False
+                self.emit("closing", c.name)
+                closing.append([c, r.choice([1, 1, 2, 4])])
+                continue
             if not live or (len(live) < self.max_conns and x < 0.12):
                 self.new_conn()
                 continue
@@ -149,6 +164,8 @@ class Gen(object):
                 self.illegal(c)
             else:
                 self.legal(c)
+        for ent in closing:
+            self.emit("drop", ent[0].name)
         return self.hist
 
     def time_step(self):
